@@ -43,7 +43,7 @@ CHECKS.update({
  "C11": dict(engine="domsim", category="exploration", design_ref="DESIGN.md 4.4",
    technique="deterministic simulation of operation histories with clone operations checked against the reference model's three-way Ref rewrite rule; shrinking to a minimal history",
    text="Histories biased towards clone_within / clone_into_external / clone_multiple_into_external interleaved with the other operations; each clone must be parentless, use only fresh referents, be isomorphic to the original (shape, order, names, classes, values), leave the source DOM unchanged, and rewrite every Ref property by the three-way rule evaluated against the destination DOM.",
-   note="Ref properties nested inside Content or Attributes are not generated (the property speaks of Ref properties). clone_multiple is exercised with distinct non-overlapping subtrees only."),
+   note="Ref properties nested inside Content or Attributes are not generated (the property speaks of Ref properties)."),
  "C12": dict(engine="domsim+schedsim", category="exploration", design_ref="DESIGN.md 4.3",
    technique="deterministic simulation: operation histories with a UniqueId ledger oracle (incl. encode/decode and duplicate-id files), clock/RNG fault injection on the UniqueId::now() seam, and seeded thread schedules over the AtomicU32 index",
    text="Three parts in one check: (a) histories over DOMs whose builders carry UniqueIds from a small pool, with an order-agnostic ledger oracle after every step (no duplicates per DOM, exactly one holder keeps a non-colliding id, colliding ids are replaced by fresh ones, nobody else changes, freed ids are reusable) including DOMs obtained from both readers; (b) frozen/jumping clock and constant/cycling RNG injected behind UniqueId::now(); (c) 2-4 threads calling UniqueId::now() under the seeded scheduler, all ids distinct.",
